@@ -170,6 +170,34 @@ def _as_expr(body: list[ast.stmt]) -> ast.expr | None:
     return None
 
 
+def _nested_path(root: ast.AST, target: ast.AST) -> list[str] | None:
+    if root is target:
+        return []
+    for ch in ast.iter_child_nodes(root):
+        if isinstance(ch, (ast.FunctionDef, ast.AsyncFunctionDef)):
+            p_ = _nested_path(ch, target)
+            if p_ is not None:
+                return [ch.name] + p_
+        elif not isinstance(ch, (ast.ClassDef, ast.Lambda)):
+            p_ = _nested_path_through(ch, target)
+            if p_ is not None:
+                return p_
+    return None
+
+
+def _nested_path_through(node: ast.AST, target: ast.AST) -> list[str] | None:
+    for ch in ast.iter_child_nodes(node):
+        if isinstance(ch, (ast.FunctionDef, ast.AsyncFunctionDef)):
+            p_ = _nested_path(ch, target)
+            if p_ is not None:
+                return [ch.name] + p_
+        elif not isinstance(ch, (ast.ClassDef, ast.Lambda)):
+            p_ = _nested_path_through(ch, target)
+            if p_ is not None:
+                return p_
+    return None
+
+
 def _first_evaluated_call(st: ast.stmt, name: str) -> tuple[ast.AST, str, int | None, ast.Call] | None:
     """The call `name()` when it is the first non-trivial thing statement `st` evaluates (only plain names and
     constants are read before it): (parent, field, index, call)."""
@@ -204,7 +232,7 @@ def _first_evaluated_call(st: ast.stmt, name: str) -> tuple[ast.AST, str, int | 
             return None
 
 
-def _expand_closures(fn: ast.AST) -> bool:
+def _expand_closures(fn: ast.AST, skip_known: tuple[str, set[str]] | None = None) -> bool:
     """Parameterless nested helpers of a new function (`def inner(): <straight-line statements>; return e`, only ever
     called) are spliced at their call sites: a closure reads the enclosing scope at call time, which is what the
     spliced statements do."""
@@ -216,9 +244,44 @@ def _expand_closures(fn: ast.AST) -> bool:
         a = st.args
         if a.args or a.posonlyargs or a.kwonlyargs or a.vararg or a.kwarg:
             continue
+        if skip_known is not None and f'{skip_known[0]}.<locals>.{st.name}' in skip_known[1]:
+            continue        # a nested function the inventory knows
         body = list(st.body)
         if body and isinstance(body[0], ast.Expr) and isinstance(body[0].value, ast.Constant):
             body = body[1:]
+        if body and not any(isinstance(n, (ast.Return, ast.Yield, ast.YieldFrom, ast.Await, ast.Nonlocal, ast.Global, ast.FunctionDef, ast.Lambda)) for x in body for n in ast.walk(x)):
+            # a procedure: every use is the statement `name()`
+            uses = [n for n in ast.walk(fn) if isinstance(n, ast.Name) and n.id == st.name]
+            psites = []
+            stack = [fn]
+            while stack:
+                o = stack.pop()
+                for fld in ('body', 'orelse', 'finalbody'):
+                    blk = getattr(o, fld, None)
+                    if isinstance(blk, list) and blk and isinstance(blk[0], ast.stmt):
+                        for x in blk:
+                            if isinstance(x, ast.Expr) and isinstance(x.value, ast.Call) and isinstance(x.value.func, ast.Name) and x.value.func.id == st.name \
+                                    and not x.value.args and not x.value.keywords:
+                                psites.append((blk, x))
+                            elif x is not st:
+                                stack.append(x)
+                for h_ in getattr(o, 'handlers', []) or []:
+                    stack.append(h_)
+            inner_locals = {n.id for x in body for n in ast.walk(x) if isinstance(n, ast.Name) and isinstance(n.ctx, ast.Store)}
+            if uses and len(psites) == len(uses) and not inner_locals:
+                for blk, x in psites:
+                    k = next(i for i, y in enumerate(blk) if y is x)
+                    cp = [copy.deepcopy(y) for y in body]
+                    for y in cp:
+                        for n in ast.walk(y):
+                            if hasattr(n, 'lineno'):
+                                n.lineno = x.lineno
+                                n.end_lineno = getattr(x, 'end_lineno', x.lineno)
+                    blk[k:k + 1] = cp
+                fn.body.remove(st)  # type: ignore[attr-defined]
+                ast.fix_missing_locations(fn)
+                done = True
+            continue
         if not body or not isinstance(body[-1], ast.Return) or body[-1].value is None:
             continue
         if any(not isinstance(x, (ast.Assign, ast.AugAssign, ast.AnnAssign, ast.Expr)) for x in body[:-1]):
@@ -421,7 +484,8 @@ def expand(prog: 'object') -> list[str]:
     _NESTED.clear()
     funcs = prog.funcs  # type: ignore[attr-defined]
     new = {q: f for q, f in funcs.items() if q not in known and f.kind in ('function', 'method', 'static') and f.parent is None}
-    if not new:
+    new_nested = [q for q, f in funcs.items() if f.parent is not None and f.kind == 'nested' and q not in known and not isinstance(f.node, ast.Lambda)]
+    if not new and not new_nested:
         return []
     log: list[str] = []
     by_name: dict[str, list] = {}
@@ -530,6 +594,7 @@ def expand(prog: 'object') -> list[str]:
             new_body = _drop_self_returns(new_body, target)
         return pre, new_body
 
+    touched_pre: dict[str, object] = {}
     # a new function handed over by reference as a completion callback (`f.then(helper)`, `f.add_done_callback(self._m)`)
     # is spelled as the local callable it stands for: a lambda for an expression helper, a nested function otherwise
     # (named as the inventory names the nested callback of that method, when it records one that is missing)
@@ -598,8 +663,20 @@ def expand(prog: 'object') -> list[str]:
     for h in new.values():
         if _expand_closures(h.node):
             log.append(f'{h.short}: parameterless nested helper(s) replaced by their expression')
+    # likewise new parameterless closures inside inventory functions (at any nesting depth)
+    for q_, f_ in list(funcs.items()):
+        if q_ in known or f_.qualname in new:
+            for sub in [n for n in ast.walk(f_.node) if isinstance(n, (ast.FunctionDef, ast.AsyncFunctionDef))]:
+                qs = q_ if sub is f_.node else None
+                if qs is None:
+                    # qualified name of a nested function: path of enclosing defs
+                    path = _nested_path(f_.node, sub)
+                    qs = q_ + ''.join(f'.<locals>.{nm}' for nm in path) if path is not None else None
+                if qs is not None and _expand_closures(sub, (qs, known)):
+                    log.append(f'{f_.short}: new parameterless closure(s) of {sub.name} spliced at their call sites')
+                    touched_pre[q_] = f_
     counter = 0
-    touched: dict[str, object] = {}
+    touched: dict[str, object] = {k_: v_ for k_, v_ in touched_pre.items() if getattr(v_, 'parent', None) is None}
     for caller in list(funcs.values()):
         if caller.qualname in new and False:
             continue
